@@ -46,7 +46,22 @@ fn gen_case(dna: &[u8], cfg: &crate::gen::GenCfg) -> Case {
 	let mut extras = Vec::new();
 	for _ in 0..nextra {
 		let pos = d.below(8);
-		let name: Vec<u8> = if d.u8() < 200 { SAFE_NAMES[d.below(SAFE_NAMES.len())].to_vec() } else { format!("u{}.dat", d.u16()).into_bytes() };
+		let name: Vec<u8> = match d.u8() {
+			0..=179 => SAFE_NAMES[d.below(SAFE_NAMES.len())].to_vec(),
+			180..=219 => format!("u{}.dat", d.u16()).into_bytes(),
+			// paths longer than the 100-byte tar header field (carried by a GNU long-name record); some are
+			// built so that the first 100 bytes end in the name of an entry the reader dispatches on
+			_ => {
+				let known = ["peppi.json", "metadata.json", "start.json", "start.raw", "end.json", "end.raw", "gecko_codes.raw", "frames.arrow"][d.below(8)];
+				let tail = [".orig", ".bak", "~", "/inner.bin", ".d/x"][d.below(5)];
+				if d.u8() < 170 {
+					let pad = 100 - known.len() - 1;
+					format!("{}/{}{}", "d".repeat(pad), known, tail).into_bytes()
+				} else {
+					format!("{}/{}{}", "long".repeat(26 + d.below(30)), known, tail).into_bytes()
+				}
+			}
+		};
 		let len = match d.u8() {
 			0..=49 => 0,
 			50..=199 => d.below(600),
